@@ -35,6 +35,7 @@ def build_pool(seed, tier, n_corpus=None, n_synth=None, n_ops=None, want_values=
     synth += poolmod.operator_messages(core.derive_seed(seed, 'pool', 'ops', 0) % (1 << 31), n_ops)
     if n_tabled:
         synth += poolmod.table_d_messages(core.derive_seed(seed, 'pool', 'tabled', 0) % (1 << 31), n_tabled)
+        synth += poolmod.exhibit_messages()     # histsim checks only (C08, C13): recorded, unrepaired defects
     admitted, rejected, mismatches = poolmod.admit_all(chosen + synth, want_values=want_values)
     info = {'corpus': sum(1 for e in admitted if e['src'] == 'corpus'),
             'synthetic': sum(1 for e in admitted if e['src'] == 'synth'),
